@@ -379,7 +379,121 @@ def m7_proposer_paid_once(S):
     S.witness(ctx, ob, "reach_two_iterations", pre, T.or_(*[p.cond() for p in ps if p.outcome == "return" and len([e for e in p.log if e[0] == "iter"]) >= 2]))
 
 
-OBLIGATIONS = [m1_capacity, m2_fee_split, m3_finalize_window, m4_dao_field, m5_block_rewards, m6_withdraw, m7_proposer_paid_once]
+
+
+def m8_withdraw_step(S):
+    """DaoCalculator::transaction_maximum_withdraw, the per-input fold step: a withdrawing NervosDAO input contributes
+    calculate_maximum_withdraw(its own output, data_bytes * 10^8 shannons of data occupation, deposit header, withdrawing header) and
+    every other input its plain capacity; contributions are added without wrap-around"""
+    from mir2smt.srcinfo import field_index
+    ob = "C06.m8"
+    ctx = S.ctx()
+    ctx.uninterpreted_unknown_calls = True
+    cands = [f for f in S.prog.funcs if f.kind == "fn" and f.name.endswith("transaction_maximum_withdraw::{closure#0}") and "util/dao/src/lib.rs" in f.name]
+    if len(cands) != 1:
+        raise Inconclusive(f"transaction_maximum_withdraw fold closure: {len(cands)} candidates")
+    f = cands[0]
+    fi = field_index("util/types/src/core/cell.rs", "CellMeta")
+    nfields = len(fi)
+    data_bytes = ctx.int("cell.data_bytes", "u64")
+    cm_fields = []
+    for name, idx in sorted(fi.items(), key=lambda kv: kv[1]):
+        cm_fields.append(data_bytes if name == "data_bytes" else OpaqueV("cell." + name, "?"))
+    cell = AggV(tuple(cm_fields), "CellMeta")
+    is_dao = ctx.bool("is_dao_type"); has_type = ctx.bool("has_type"); withdrawing = ctx.bool("is_withdrawing")
+    wd_known = ctx.bool("withdraw_header_in_deps"); idx_ok = ctx.bool("witness_index_ok"); dep_known = ctx.bool("deposit_header_in_deps")
+    acc = ctx.int("acc", "u64"); plain = ctx.int("plain_capacity", "u64"); wres = ctx.int("withdraw_result", "u64"); w_ok = ctx.bool("withdraw_ok")
+    calls = []
+
+    def calc(ex, c, a, d):
+        calls.append((list(ex.pc), [E.snapshot(ex, x) for x in a]))
+        return mk_result(w_ok.t, cap(wres), OpaqueV("werr", "DaoError"), d)
+
+    def opt(flag, val):
+        return lambda ex, c, a, d: mk_option(flag.t, val(ex) if callable(val) else val, d)
+
+    ctx.env = [
+        (E.rx(r"Option::<Script>::map::<bool,"), lambda ex, c, a, d: mk_option(has_type.t, is_dao, d)),
+        (E.rx(r"ScriptOpt::to_opt$|CellOutput::type_$"), E.opaque_call()),
+        (E.rx(r"as Fn<\(&CellMeta,\)>>::call$"), lambda ex, c, a, d: withdrawing),
+        (E.rx(r"Option::<&Byte32>::filter::<"), lambda ex, c, a, d: mk_option(wd_known.t, ex.ctx.ref_to(OpaqueV("withdraw_hash", "Byte32")), d)),
+        (E.rx(r"Option::<.*TransactionInfo>::as_ref$|Option::<&.*TransactionInfo>::map::<&Byte32"), E.opaque_call()),
+        (E.rx(r"TransactionView::witnesses$|BytesVec::get$"), E.opaque_call()),
+        (E.rx(r"Option::<.*packed::Bytes>::ok_or::<DaoError>$"), E.opaque_call()),
+        (E.rx(r"Result::<.*packed::Bytes, DaoError>::and_then::<u64,"), lambda ex, c, a, d: mk_result(idx_ok.t, ex.ctx.int("dep_index", "u64"), OpaqueV("ierr", "DaoError"), d)),
+        (E.rx(r"Result::<u64, DaoError>::and_then::<&Byte32,"), lambda ex, c, a, d: (lambda r: EnumV(T.ite(T.and_(T.eq(r.disc, 0), dep_known.t), 0, 1), ((0, (ex.ctx.ref_to(OpaqueV("deposit_hash", "Byte32")),)), (1, (OpaqueV("derr", "DaoError"),))), d))(deref(ex, a[0]))),
+        (E.rx(r"calculate_maximum_withdraw$"), calc),
+        (E.rx(r"CellOutput::capacity$"), lambda ex, c, a, d: OpaqueV("capfield", "Uint64")),
+        (E.rx(r"Uint64 as Into<Capacity>>::into$"), lambda ex, c, a, d: cap(plain)),
+        (E.rx(r"as From<CapacityError>>::from$|as Into<DaoError>>::into$"), E.opaque_call()),
+    ]
+    # captured: self, header_deps, rtx (order from the closure's debug map)
+    caps = {}
+    import re as _re
+    for name, place in f.debug.items():
+        m = _re.match(r"\(\*\(\(\*_1\)\.(\d+): ", place)
+        if m:
+            caps[int(m.group(1))] = name
+    clo = ctx.ref_to(AggV(tuple(ctx.ref_to(OpaqueV(caps.get(i, f"cap{i}"), "?")) for i in range(len(caps))), f.params[0][1].replace("&mut ", "")))
+    i = ctx.int("i", "usize")
+    ps = S.run(ctx, f, [clo, cap(acc), AggV((i, ctx.ref_to(cell)), "(usize, &CellMeta)")])
+    S.prove(ctx, ob, "no_panic", [], T.not_(cond_of(panics(ps))))
+    okc, v = res_ok(ps)
+    dao_in = T.and_(has_type.t, is_dao.t, withdrawing.t)
+    data_cap = T.mul(data_bytes.t, 100000000)
+    S.prove(ctx, ob, "plain_input_adds_its_capacity", [T.not_(dao_in)], T.and_(T.iff(okc, T.le(T.add(acc.t, plain.t), U64)), T.implies(okc, T.eq(v, T.add(acc.t, plain.t)))))
+    S.prove(ctx, ob, "dao_input_adds_the_withdraw_amount", [dao_in],
+            T.and_(T.iff(okc, T.and_(wd_known.t, idx_ok.t, dep_known.t, T.le(data_cap, U64), w_ok.t, T.le(T.add(acc.t, wres.t), U64))), T.implies(okc, T.eq(v, T.add(acc.t, wres.t)))))
+    if not calls:
+        raise Inconclusive("calculate_maximum_withdraw is never reached")
+    for k, (pc, a) in enumerate(calls):
+        out, dcap, dep, wd = a[1], a[2], a[3], a[4]
+        S.prove(ctx, ob, f"call{k}_data_occupation_is_data_bytes_in_shannons", pc, T.eq(as_int(dcap), data_cap))
+        S.prove(ctx, ob, f"call{k}_uses_own_output_and_both_headers", pc,
+                bool(getattr(out, "name", "") == "cell.cell_output" and getattr(dep, "name", "") == "deposit_hash" and getattr(wd, "name", "") == "withdraw_hash"),
+                extra={"note": f"output={getattr(out, 'name', out)} deposit={getattr(dep, 'name', dep)} withdraw={getattr(wd, 'name', wd)}"})
+        S.prove(ctx, ob, f"call{k}_only_for_withdrawing_dao_inputs", pc, dao_in)
+    S.witness(ctx, ob, "reach_dao_ok", [dao_in, okc], T.gt(data_bytes.t, 8))
+
+
+def m9_satoshi_gift(S):
+    """modified_occupied_capacity: the 60% rule applies only to the genesis cellbase cell locked to the satoshi key; every other cell
+    counts its real occupied capacity"""
+    ob = "C06.m9"
+    ctx = S.ctx()
+    ctx.uninterpreted_unknown_calls = True
+    has_info = ctx.bool("has_tx_info"); gen = ctx.bool("is_genesis"); cb = ctx.bool("is_cellbase"); args_match = ctx.bool("args_are_satoshi_key")
+    capy = ctx.int("capacity", "u64"); occ = ctx.int("occupied", "u64"); occ_ok = ctx.bool("occupied_ok")
+    n = ctx.int("ratio.n", "u64"); d_ = ctx.int("ratio.d", "u64")
+    from mir2smt.srcinfo import field_index
+    fi = field_index("util/types/src/core/cell.rs", "CellMeta")
+    flds = []
+    for name, idx in sorted(fi.items(), key=lambda kv: kv[1]):
+        flds.append(mk_option(has_info.t, OpaqueV("txinfo", "TransactionInfo"), "Option<TransactionInfo>") if name == "transaction_info" else OpaqueV("cell." + name, "?"))
+    cell = AggV(tuple(flds), "CellMeta")
+    ci = field_index("spec/src/consensus.rs", "Consensus")
+    cons = OpaqueV("cons", "Consensus")
+    ratio_idx = ci["satoshi_cell_occupied_ratio"]
+    ctx.env = [
+        (E.rx(r"TransactionInfo::is_genesis$"), lambda ex, c, a, dd: gen),
+        (E.rx(r"TransactionInfo::is_cellbase$"), lambda ex, c, a, dd: cb),
+        (E.rx(r"as PartialEq<.*>>::(eq|ne)$"), lambda ex, c, a, dd: BoolV(args_match.t if c.endswith("eq") else T.not_(args_match.t))),
+        (E.rx(r"CellMeta::occupied_capacity$"), lambda ex, c, a, dd: mk_result(occ_ok.t, cap(occ), OpaqueV("cerr", "CapacityError"), dd)),
+        (E.rx(r"Uint64 as Into<Capacity>>::into$|as Unpack<Capacity>>::unpack$"), lambda ex, c, a, dd: cap(capy)),
+        (E.rx(r"CellOutput::(lock|capacity)$|Script::args$|Bytes::raw_data$|as Index<.*>>::index$|as Deref>::deref$"), E.opaque_call()),
+    ]
+    ctx.add_side(T.and_(T.eq(ctx.int(f"cons.{ratio_idx}.0", "u64").t, n.t), T.eq(ctx.int(f"cons.{ratio_idx}.1", "u64").t, d_.t)))
+    ps = S.run(ctx, "modified_occupied_capacity", [ctx.ref_to(cell), ctx.ref_to(cons)], nparams=2)
+    S.prove(ctx, ob, "no_panic", [T.gt(d_.t, 0)], T.not_(cond_of(panics(ps))))
+    okc, v = res_ok(ps)
+    gift = T.and_(has_info.t, gen.t, cb.t, args_match.t)
+    prod = T.mul(capy.t, n.t)
+    S.prove(ctx, ob, "gift_cell_counts_the_ratio", [gift, T.gt(d_.t, 0)], T.and_(T.iff(okc, T.le(prod, U64)), T.implies(okc, T.eq(v, T.ediv(prod, d_.t)))))
+    S.prove(ctx, ob, "every_other_cell_counts_its_occupied_capacity", [T.not_(gift)], T.and_(T.iff(okc, occ_ok.t), T.implies(okc, T.eq(v, occ.t))))
+    S.witness(ctx, ob, "reach_gift", [gift, okc], T.gt(v, 1))
+
+
+OBLIGATIONS = [m1_capacity, m2_fee_split, m3_finalize_window, m4_dao_field, m5_block_rewards, m6_withdraw, m7_proposer_paid_once, m8_withdraw_step, m9_satoshi_gift]
 
 
 def validate(S, native):
